@@ -94,6 +94,10 @@ def _handle_running(
     # Atomic: store stage + push message together
     txn_helper.execute_atomic(
         stage=stage,
+        # The re-queued copy replaces this message: mark it processed in the same
+        # commit, otherwise a redelivery (crash before ack) forks the poll chain
+        # and re-executes the task after its result was recorded.
+        source_message=message,
         # Polling is not a failed attempt: start the re-queued message's
         # attempt count afresh (push_message persists message.attempts).
         messages_to_push=[(message.copy_with_attempts(0), delay.total_seconds())],
